@@ -176,11 +176,16 @@ def observe_index(ds, ref, out):
         return
     if il is None:
         return
-    for i in list(range(n)) + list(range(-n, 0)) + [n, n + 1, -n - 1, -n - 2]:
+    # random access before (re-)iteration and not in ascending order: state that a stage fills lazily by access
+    # (caches) must not depend on the order of the accesses
+    for i in list(range(-1, -n - 1, -1)) + list(range(n)) + [n, n + 1, -n - 1, -n - 2]:
         exp = ref.items[i % n][1] if (n and -n <= i < n) else IndexError
         for ix in (i, np.int64(i)):
             if not _cmp_index(ds, ix, exp, out):
                 return
+    if not ref.has_err():
+        vals, exc = expected_stream(ref.values())
+        cmp_stream('iter-after-index', run_iter(lambda: iter(ds), n + 3), vals, exc, out)
 
 
 def _cmp_index(ds, i, exp, out):
@@ -220,6 +225,14 @@ def observe_keys(ds, ref, absent, out):
         except BaseException as e:      # noqa: BLE001
             kind = ('keys-empty' if n == 0 else 'keys') + ':' + exc_name(e)
             out.append((kind, f'keys() raised {exc_name(e)}: {str(e)[:60]!r}, expected {ref.keys()}'))
+    if not ref.keyed and have_keys and ref.finite:
+        # a stage the reference does not expect to expose keys: if it does, they must be right
+        try:
+            ks = [str(k) if isinstance(k, np.str_) else k for k in ds.keys()]
+        except BaseException:       # noqa: BLE001
+            ks = None
+        if ks is not None and ks != ref.keys():
+            out.append(('keys', f'keys()={ks}, but iteration yields the examples of {ref.keys()}'))
     # items(): pairs in iteration order with the very examples iteration yields
     if ref.finite and (ref.items_mode == 'yes' or (have_keys and n and ref.items_mode in ('maybe', 'no'))):
         pairs = [(v if isinstance(v, Err) else (k, v)) for k, v in ref.items]
